@@ -34,6 +34,13 @@ vector<string> ApplicationTools::matchingParameters(const string& pattern, const
     StringTokenizer stj(pattern, "*", true, false);
     size_t pos1, pos2;
     string parn = it.first;
+    if (pattern.find('*') == string::npos)
+    {
+      // No wildcard: only the identical name matches.
+      if (parn == pattern)
+        retv.push_back(parn);
+      continue;
+    }
     bool flag(true);
     string g = stj.nextToken();
     pos1 = parn.find(g);
@@ -68,6 +75,13 @@ vector<string> ApplicationTools::matchingParameters(const string& pattern, vecto
     StringTokenizer stj(pattern, "*", true, false);
     size_t pos1, pos2;
     string parn = params.at(i);
+    if (pattern.find('*') == string::npos)
+    {
+      // No wildcard: only the identical name matches.
+      if (parn == pattern)
+        retv.push_back(parn);
+      continue;
+    }
     bool flag(true);
     string g = stj.nextToken();
     pos1 = parn.find(g);
